@@ -173,7 +173,7 @@ theorem ctxNode_pre (pl : List Event) (c : Ctx) (cs : CtxSpec) :
     ctxNode (c.pre pl) cs = ((ctxNode c cs).1.pre pl, (ctxNode c cs).2) := by
   unfold ctxNode
   split
-  · rfl
+  · split <;> rfl
   · split
     · rfl
     · rw [Ctx.pre_get]
